@@ -83,21 +83,32 @@ func checkC15(c *Ctx) {
 	checkRelevantReviewedForms(c, f, "C15.z", "the type grammar or the type printer",
 		primSet("parseType", "parseTypeArrows", "parseElemType", "parseTermType", "parseAtomType", "parseTypeList", "mightParseSpecifiedTypeList", "FTypeToGo", "funcTypeToGo", "fTupleToGo", "fSliceToGo", "fpToGo", "recordTypeToGo", "fUnionToGo", "tArgsToGo", "scLookupTypeFac"), 20)
 	// the explicit-type-argument position: `<` directly after a name starts a type list, whatever token the first type begins with
-	c.expectNF(f, "C15.e", "mightParseSpecifiedTypeList", []string{"if(psCurIs(var:New_TokenType_LT, p1), (psConsume(var:New_TokenType_GT, #0(parseTypeList(p0, psConsume(var:New_TokenType_LT, p1)))), #1(parseTypeList(p0, psConsume(var:New_TokenType_LT, p1)))), (p1, emptyFtps()))"},
+	checkTypeArgumentPosition(c, f, "C15.e")
+	r.Rule("C15.j", "every recursive traversal of the type structure (a match on FType with a default arm that descends into composite constructors) has an arm for each of FFunc, FParamd, FRecord, FSlice, FTuple, FUnion", 3)
+	checkTypeTraversalsComplete(c, f, "C15.j")
+	checkC15Atom(c, f)
+}
+
+// checkTypeArgumentPosition: the one place where `<` has two readings.  After a name, an adjacent `<` is offered to
+// the TOLERANT type-list parser (which parses a list only when the current token really is LT and otherwise returns
+// no type arguments), so that `<=`, `<>` written directly after a name stay the operators they are (C08: the chain
+// still groups by the table) and a type list is recognised whatever its first type begins with (C15).
+func checkTypeArgumentPosition(c *Ctx, f *FC, rule string) {
+	r := c.R
+	c.expectNF(f, rule, "mightParseSpecifiedTypeList", []string{"if(psCurIs(var:New_TokenType_LT, p1), (psConsume(var:New_TokenType_GT, #0(parseTypeList(p0, psConsume(var:New_TokenType_LT, p1)))), #1(parseTypeList(p0, psConsume(var:New_TokenType_LT, p1)))), (p1, emptyFtps()))"},
 		"at `<` a comma-separated list of full types up to `>` is parsed; otherwise no type arguments")
 	if nf, fn := f.NF("parseVarRef"); fn != nil {
 		pos := c.Pos(f.M.Fset, fn.Decl.Pos())
 		a := strings.Contains(nf, "if(psIsNeighborLT(p0), mightParseSpecifiedTypeList(parseType, psNext(p0)), (psNext(p0), emptyFtps()))")
 		b := strings.Contains(nf, "mightParseSpecifiedTypeList(parseType, #0(parseFullName(p0)))")
 		n := strings.Count(nf, "psIsNeighborLT(")
-		r.Check(a && b, "C15.e", "parseVarRef", "type-arguments-attempted", pos,
+		r.Check(a && b, rule, "parseVarRef", "type-arguments-attempted", pos,
 			"after a plain name the type list is attempted exactly when `<` is adjacent; after a qualified name always — no further condition on how the first type begins",
-			"the condition under which explicit type arguments are parsed is no longer the adjacency test alone: a type list whose first type begins with some token (a `[`, a `(`, a particular name) is not recognised and `<` is left to the comparison operator")
+			"the condition under which explicit type arguments are parsed is no longer the adjacency test alone: a type list whose first type begins with some token (a `[`, a `(`, a particular name) is not recognised and `<` is left to the comparison operator — or the list parser is entered without looking at the token, so that `<=` / `<>` written directly after a name are taken for the start of a type list")
 		_ = n
 	} else {
-		r.Undecided("C15.e", "parseVarRef", "definition", "fc", "anchor function not found")
+		r.Undecided(rule, "parseVarRef", "definition", "fc", "anchor function not found")
 	}
-	checkC15Atom(c, f)
 }
 
 // checkC15Atom: base table (a), atom-level closed-form fragments (b), who-calls (e).
